@@ -330,6 +330,37 @@ fn set_bits(s: WeekdaySet) -> u8 {
     b
 }
 
+/// FromIterator / Extend-like collection from every sequence of weekdays (with repeats, any order) whose first
+/// symbol is `first`, up to `maxlen` items: the result is exactly the set of days that occur.
+fn collect_sequences(acc: &mut Acc, first: usize, maxlen: usize) {
+    let mut seq: Vec<usize> = vec![first];
+    // odometer over the remaining positions, all lengths 1..=maxlen
+    loop {
+        let want: u8 = seq.iter().fold(0, |b, &i| b | 1 << i);
+        let got: WeekdaySet = seq.iter().map(|&i| WD[i]).collect();
+        acc.transitions += 1;
+        if set_bits(got) != want {
+            acc.violation("WeekdaySet::from_iter:sequence", format!("{:?}.into_iter().collect::<WeekdaySet>()", seq.iter().map(|&i| WD[i]).collect::<Vec<_>>()), format!("{:07b}", want), format!("{:?}", got));
+        }
+        if seq.len() < maxlen {
+            seq.push(0);
+            continue;
+        }
+        // advance
+        loop {
+            if seq.len() == 1 {
+                return;
+            }
+            let l = seq.len() - 1;
+            if seq[l] < 6 {
+                seq[l] += 1;
+                break;
+            }
+            seq.pop();
+        }
+    }
+}
+
 fn sets(acc: &mut Acc) {
     for a in 0..128u8 {
         let sa = mk_set(a);
@@ -525,17 +556,19 @@ fn main() {
         property: "C19",
         classes: CLASSES,
         required: &["conv_accept", "conv_reject", "alias_reject", "parse_accept", "parse_reject", "set_op", "iter_seq", "iter_wrap", "iter_mixed_ends"],
-        rule: "all 7 weekdays / 12 months (cycles, numbering, distance, names, order); TryFrom<u8> on all 256 values and every FromPrimitive integer method on the integer lattice plus alias classes k*2^8/16/24/31/32/48/63+v; FromStr on every case variant of every name, every 1-edit mutant, every prefix and every string of length <= 3 (4 thorough) over the name letters; all 128 sets x 7 days and all 128^2 pairs for every set operation; iterator state machine: all 128 x 7 initial states x every next/next_back sequence until two consecutive None, against a deque; non-trivial = rejected value/string, wrapping iteration, mixed-end sequence",
+        rule: "all 7 weekdays / 12 months (cycles, numbering, distance, names, order); TryFrom<u8> on all 256 values and every FromPrimitive integer method on the integer lattice plus alias classes k*2^8/16/24/31/32/48/63+v; FromStr on every case variant of every name, every 1-edit mutant, every prefix and every string of length <= 3 (4 thorough) over the name letters; all 128 sets x 7 days and all 128^2 pairs for every set operation; collection from every sequence of weekdays of length <= 9 (10 thorough); iterator state machine: all 128 x 7 initial states x every next/next_back sequence until two consecutive None, against a deque; non-trivial = rejected value/string, wrapping iteration, mixed-end sequence",
         assumptions: &["float FromPrimitive conversions are not judged (fractional inputs are not 'numbers of a weekday')", "strings longer than the edit/length bounds are not enumerated"],
     };
     let only = replay_unit(&args);
     let tier = args.tier;
-    let acc = explore_units(5, CLASSES.len(), only, |u, acc| match u {
+    let seq_len = if tier == Tier::Thorough { 10 } else { 9 };
+    let acc = explore_units(12, CLASSES.len(), only, |u, acc| match u {
         0 => cycles(acc),
         1 => conversions(acc),
         2 => parsing(acc, tier),
         3 => sets(acc),
-        _ => iterators(acc),
+        4 => iterators(acc),
+        k => collect_sequences(acc, (k - 5) as usize, seq_len),
     });
     let _ = (mo_index(Month::May), lat_i64().len());
     // cross-check of the explorer: stateright must reach the same number of states and find no counterexample
@@ -550,6 +583,6 @@ fn main() {
             machinery(&format!("explorer self-check failed: DFS visited {} iterator states, stateright BFS {}", DFS_ITER_STATES.load(Ordering::Relaxed), sr_states));
         }
     }
-    let extra = Extra { bounds: json!({"weekdays": 7, "months": 12, "sets": 128, "set_pairs": 128*128, "iterator_initial_states": 128*7, "max_string_len_enumerated": if tier == Tier::Thorough {4} else {3}}), exhaustive: true, more: vec![("second_engine".into(), json!({"engine": "stateright 0.31 spawn_bfs", "model": "WeekdaySetIter transition system (state = initial set, start day, remaining set, trailing Nones; actions next / next_back executed by the real iterator)", "unique_states": sr_states, "dfs_explorer_states": DFS_ITER_STATES.load(Ordering::Relaxed), "counts_equal": sr_states == DFS_ITER_STATES.load(Ordering::Relaxed)}))] };
+    let extra = Extra { bounds: json!({"weekdays": 7, "months": 12, "sets": 128, "set_pairs": 128*128, "iterator_initial_states": 128*7, "max_string_len_enumerated": if tier == Tier::Thorough {4} else {3}, "collected_sequences_max_len": seq_len}), exhaustive: true, more: vec![("second_engine".into(), json!({"engine": "stateright 0.31 spawn_bfs", "model": "WeekdaySetIter transition system (state = initial set, start day, remaining set, trailing Nones; actions next / next_back executed by the real iterator)", "unique_states": sr_states, "dfs_explorer_states": DFS_ITER_STATES.load(Ordering::Relaxed), "counts_equal": sr_states == DFS_ITER_STATES.load(Ordering::Relaxed)}))] };
     finish(&spec, &args, start, acc, extra);
 }
